@@ -307,13 +307,16 @@ def run(ctx):
         if rng.random() < 0.2:
             fields.append(('trailing', B.TrailingByteArray))
 
+        # field names users may pick: leading / trailing / doubled underscores, acronyms, capitals
+        names = [rng.choice(['f%d', '_f%d', 'f%d_', 'f__%d', 'player_UUID%d', 'F%d', 'type_%d_']) % k for k in range(len(fields))]
+
         class UserPacket(Packet):
             id = 0x77
-            definition = [{'f%d' % k: T} for k, (_, T) in enumerate(fields)]
+            definition = [{names[k]: T} for k, (_, T) in enumerate(fields)]
         vals = [gen_value(rng, tok, cx, boundary=(i % 2 == 0)) for tok, _ in fields]
         p = UserPacket(cx)
         for k, (pyv, _, _) in enumerate(vals):
-            setattr(p, 'f%d' % k, pyv)
+            setattr(p, names[k], pyv)
         buf = PacketBuffer()
         try:
             p.write_fields(buf)
@@ -338,13 +341,19 @@ def run(ctx):
             try:
                 q.read(rb)
                 for k, (_, _, exp) in enumerate(vals):
-                    if not same(exp, canon(getattr(q, 'f%d' % k))):
-                        bad = 'field f%d (%s) reads back as %r, written %r' % (k, toks[k], getattr(q, 'f%d' % k), exp)
+                    if not same(exp, canon(getattr(q, names[k]))):
+                        bad = 'field %s (%s) reads back as %r, written %r' % (names[k], toks[k], getattr(q, names[k]), exp)
                 if rb.read():
                     bad = 'payload not consumed exactly'
-                repr(q)
             except Exception as e:
                 bad = 'read raised %r' % (e,)
+            if not bad:
+                try:
+                    rtxt = repr(q)
+                    if any(n not in rtxt for n in names):
+                        bad = 'repr %r does not show every field (%r)' % (rtxt[:80], names)
+                except Exception as e:
+                    bad = 'repr raised %r for field names %r' % (e, names)
             if toks and not any(t == 'trailing' for t in toks):
                 dec_lines.append('fields.dec %s %s' % (';'.join(toks), hx(data + b'\x99')))
                 dec_impl.append('ok %s 99' % ';'.join(m for _, m, _ in vals))
